@@ -264,9 +264,14 @@ type Recorder struct {
 	Requests []*graphql.Query
 	// Atomic: the service answers in one step (no scheduling choice is explored inside the service's own execution)
 	Atomic bool
+	// Down: the service is unreachable for the moment (every request fails)
+	Down bool
 }
 
 func (r *Recorder) Execute(ctx context.Context, req *federation.QueryRequest) (resp *federation.QueryResponse, err error) {
+	if r.Down {
+		return nil, fmt.Errorf("service %s: connection refused", r.Name)
+	}
 	r.Requests = append(r.Requests, req.Query)
 	if r.Atomic {
 		rt.NoBranch(func() { resp, err = r.Inner.Execute(ctx, req) })
